@@ -75,7 +75,7 @@ def run(tier):
     for N in Ns:
         els = common.symmetry_elements(chk, N, 0)
         d = np.linspace(0, 360, N, endpoint=False)
-        nmix = 40 if quick else 300
+        nmix = 40 if quick else 1500
         mix = np.array([mixture(N) for _ in range(nmix)])
         res = {}
         for v in variants:
@@ -168,7 +168,7 @@ def run(tier):
         inc = get_direction_increment(dr)
         tw = np.zeros((4, N))
         tw[0], tw[1], tw[2], tw[3] = np.cos(dr), np.sin(dr), np.cos(2 * dr), np.sin(2 * dr)
-        for rep in range(10 if quick else 100):
+        for rep in range(10 if quick else 1000):
             mom = np.array(mixture(N))
             lam = M2.initial_value(np.array(mom[0]), np.array(mom[1]), np.array(mom[2]), np.array(mom[3])) + np.array([rng.uniform(-0.3, 0.3) for _ in range(4)])
             jac = M2.mem2_jacobian(lam, tw, inc, np.zeros((4, 4)))
@@ -186,7 +186,7 @@ def run(tier):
     # fine grids, narrow but resolved lobes (spread 2..6 bins): the Newton solver needs many steps; fidelity and Newton / scipy agreement
     for N in ([144] if quick else [72, 144]):
         d = np.linspace(0, 360, N, endpoint=False)
-        nmix = 60 if quick else 300
+        nmix = 60 if quick else 2000
         th_ = np.linspace(0, 2 * np.pi, 7200, endpoint=False)
 
         def narrow():
